@@ -80,7 +80,43 @@ void *vp_memset(void *d, int c, size_t n)
 	vp_point("memset");
 	return memset(d, c, n);
 }
-void *vp_malloc(size_t n) { vp_point("malloc"); return malloc(n); }
-void *vp_calloc(size_t a, size_t b) { vp_point("calloc"); return calloc(a, b); }
-void *vp_realloc(void *p, size_t n) { vp_point("realloc"); return realloc(p, n); }
-void vp_free(void *p) { vp_point("free"); free(p); }
+/* heap of the instrumented unit: tracked so that a harness can fingerprint it (vp_heap_hash) */
+#define MAXBLK 4096
+static struct { void *p; size_t n; int id; } BLK[MAXBLK];
+static int nblk, blk_seq;
+void vp_heap_reset(void) { nblk = 0; blk_seq = 0; }
+static void blk_add(void *p, size_t n) { if (!p) return; if (nblk >= MAXBLK) vp_broken("too many heap blocks"); BLK[nblk].p = p; BLK[nblk].n = n; BLK[nblk].id = ++blk_seq; nblk++; }
+static void blk_del(void *p) { int i; if (!p) return; for (i = 0; i < nblk; i++) if (BLK[i].p == p) { BLK[i] = BLK[--nblk]; return; } }
+/* address-independent form of a word: pointers into tracked blocks become (block number, offset); other
+ * values that look like user-space pointers (objects created once per execution outside the unit) become a constant */
+uint64_t vp_heap_canon(uint64_t v)
+{
+	int i;
+	if (v < 0x10000) return v;
+	for (i = 0; i < nblk; i++)
+		if (v >= (uint64_t)(uintptr_t)BLK[i].p && v <= (uint64_t)(uintptr_t)BLK[i].p + BLK[i].n)
+			return 0xB10C000000000000ULL | ((uint64_t)BLK[i].id << 24) | (v - (uint64_t)(uintptr_t)BLK[i].p);
+	if (v >= 0x100000000000ULL && v < 0x800000000000ULL) return 0xF0F0F0F0ULL;
+	return v;
+}
+uint64_t vp_heap_hash(void)
+{
+	uint64_t k = 0;
+	int i;
+	for (i = 0; i < nblk; i++) {
+		uint64_t one = vp_hash(&BLK[i].n, sizeof(size_t), (uint64_t)BLK[i].id);
+		size_t off;
+		for (off = 0; off + 8 <= BLK[i].n; off += 8) {
+			uint64_t w;
+			memcpy(&w, (char *)BLK[i].p + off, 8);
+			if (w) { w = vp_heap_canon(w); one = vp_hash(&w, 8, one ^ off); }
+		}
+		if (off < BLK[i].n) one = vp_hash((char *)BLK[i].p + off, BLK[i].n - off, one);
+		k += one * 0x9e3779b97f4a7c15ULL;      /* order of the table is irrelevant: ids identify blocks */
+	}
+	return k ^ (uint64_t)nblk;
+}
+void *vp_malloc(size_t n) { void *p; vp_point("malloc"); p = malloc(n); blk_add(p, n); return p; }
+void *vp_calloc(size_t a, size_t b) { void *p; vp_point("calloc"); p = calloc(a, b); blk_add(p, a * b); return p; }
+void *vp_realloc(void *p, size_t n) { void *q; vp_point("realloc"); q = realloc(p, n); if (q) { blk_del(p); blk_add(q, n); } return q; }
+void vp_free(void *p) { vp_point("free"); blk_del(p); free(p); }
